@@ -76,3 +76,26 @@ func VerifPlaybackAuth() {
 	vnd.Cover(!ok, "rejected playback request")
 	vnd.Cover(ok, "admitted playback request")
 }
+
+// VerifPlaybackRoutes: every route of the router the playback server builds, asked for a path by a refused client.
+func VerifPlaybackRoutes() {
+	gin.SetMode(gin.ReleaseMode)
+	am := &verifAuth{outcome: 1 + vnd.Choose("refusal", 2)}
+	s := &Server{Address: "127.0.0.1:0", ReadTimeout: conf.Duration(10e9), WriteTimeout: conf.Duration(10e9), AuthManager: am, Parent: verifC04Log{}}
+	if s.Initialize() != nil {
+		vnd.Assume(false)
+	}
+	router, ok := s.httpServer.Handler.(*gin.Engine)
+	vnd.Assert(ok, "the playback server serves a gin router")
+	routes := router.Routes()
+	vnd.Assert(len(routes) >= 2, "the router lists its routes")
+	rt := routes[vnd.Choose("route", len(routes))]
+	w := httptest.NewRecorder()
+	req := &http.Request{Method: rt.Method, URL: &url.URL{Path: rt.Path, RawQuery: "path=cam&start=2008-11-07T11%3A22%3A00Z&duration=10"}, Header: http.Header{}, RemoteAddr: "192.0.2.7:4455", Body: http.NoBody}
+	faulted := vnd.Panics(func() { router.ServeHTTP(w, req) })
+	vnd.Assert(!faulted && am.calls == 1 && am.last.Action == conf.AuthActionPlayback && am.last.Path == "cam" && w.Code == http.StatusUnauthorized, "every playback route answers a refused client with 401 before touching any recording")
+	vnd.Cover(true, "route asked")
+	if !vnd.Symbolic() {
+		s.Close()
+	}
+}
